@@ -293,6 +293,13 @@ def result_outcomes(body, du, path):
                 val = ("cf", v[1]) if v[0] in ("res", "cf") else ("knowncf", v[1])
             elif c.endswith("from_residual"):
                 val = ("known", "Err")
+            elif c in ("std::result::Result::ok", "std::option::Option::ok_or", "std::option::Option::ok_or_else", "std::result::Result::map",
+                       "std::result::Result::map_err", "std::option::Option::map", "std::result::Result::inspect", "std::option::Option::inspect",
+                       "std::result::Result::inspect_err", "std::option::Option::copied", "std::option::Option::cloned", "std::result::Result::as_ref",
+                       "std::option::Option::as_ref", "std::option::Option::as_mut") and a0l in env and env[a0l][0] in ("res", "cf", "known"):
+                # adaptors that keep success a success and failure a failure (Ok <-> Some, Err <-> None): a branch on their
+                # result still tells the outcome of the call behind the value
+                val = env[a0l] if env[a0l][0] != "known" else ("known", {"Ok": "Some", "Err": "None", "Some": "Ok", "None": "Err"}.get(env[a0l][1], env[a0l][1]) if c in ("std::result::Result::ok", "std::option::Option::ok_or", "std::option::Option::ok_or_else") else env[a0l][1])
             elif c in _VARIANT_TESTS and a0l in env and env[a0l][0] in ("res", "cf"):
                 # `res.is_ok()` / `is_some()` ..: a later branch on this bool fixes the outcome of the call behind `res`
                 val = ("test", env[a0l][1], _VARIANT_TESTS[c] in ("Ok", "Some"))
